@@ -441,6 +441,15 @@ class CallMixin(ExprMixin):
         return self.ok(self.as_iterable(args[0], st), st)
 
     def bi_next(self, args, kw, st):
+        a0 = args[0]
+        cls = a0.cls if isinstance(a0, Rec) else None
+        if cls is not None:
+            # next(obj) on an object updated in place: its __next__, through that method's contract
+            mcls, fn = self.U.src.find_method(cls, "__next__")
+            key = f"{self.U.src.classes[mcls].module}:{mcls}.__next__" if fn is not None else None
+            if key in REGISTRY:
+                return self.call_contract(key, a0, [], {}, st)
+            raise Unsupported("next() of an object without a __next__ contract")
         it = self.as_iterable(args[0], st)
         n = self.it_len(it)
         p = self.it_pending(it)
@@ -771,6 +780,9 @@ class CallMixin(ExprMixin):
                 parts = self.concat_parts(a0.t)
                 if all(kind == "unit" for kind, _ in parts):
                     return self.ok(Tup([T("V", t) for _, t in parts]), st)
+        if cname == "deque" and not args and not kwargs:
+            # an empty deque, modelled as the empty list (append on the right; the engine knows no other deque operation)
+            return self.ok(T("list", z3.Empty(U.SeqV)), st)
         if cname in ("int", "float", "dict", "deque", "set", "frozenset"):
             raise Unsupported(f"constructor {cname}()")
         ci = src.classes.get(cname)
